@@ -301,7 +301,7 @@ func (g *G) UpdateRow(t *tspace.Table, db *ref.DB, extra map[string][]string, al
 			if g.P.Chance(1, 3) {
 				if c.Name == "name" {
 					row[c.Name] = g.Name()
-				} else if g.P.Chance(1, 5) {
+				} else if g.P.Chance(1, 5) && !(c.IsScalar() && c.Key.Type == "uuid") {
 					row[c.Name] = ref.Default(c) // back to default
 					if c.Min > 0 && !c.IsScalar() {
 						row[c.Name] = g.Value(c, db, extra)
